@@ -596,7 +596,9 @@ func (f rawIPFS) Cat(path string) (io.ReadCloser, error) {
 // HTTP client only ever sees http(s) URLs.
 func emitAltRouting(out *Out, r *Rng) {
 	page := fmt.Sprintf("https://pages.example/p%d.html", r.Intn(1000))
-	targets := []string{"ipfs://QmAlt/doc.json", "ftp://files.example/doc.jsonld", "file:///etc/ctx.json", "gopher://old.example/1", "HTTP://upper.example/doc.jsonld", "ws://sock.example/x"}
+	targets := []string{"ipfs://QmAlt/doc.json", "ftp://files.example/doc.jsonld", "file:///etc/ctx.json", "gopher://old.example/1", "ws://sock.example/x", "mailto:ctx@example.com", "urn:ctx:doc"}
+	// (targets that json-gold's Resolve respells - an upper-case scheme becomes lower case - are left out: the model takes the
+	// target as written)
 	t := targets[r.Intn(len(targets))]
 	cfg := loaderCfg{cacheMode: r.Pick([]string{"memory", "none", "virtual"})}
 	switch r.Intn(3) {
@@ -609,12 +611,26 @@ func emitAltRouting(out *Out, r *Rng) {
 		cfg.ipfsCli, cfg.ipfsGW = true, "https://gw.example"
 	}
 	o := &scriptedOrigin{docs: map[string]*orgEntry{}, budget: 40}
-	o.docs[page] = &orgEntry{alt: t, policy: r.Pick([]string{"max-age=60", "no-store"})}
+	pagePol := r.Pick([]string{"max-age=60", "no-store"})
+	o.docs[page] = &orgEntry{alt: t, policy: pagePol}
 	// whatever is asked, there is an answer: a document under the URL itself (should the HTTP client be sent there), under the
 	// gateway's URL for it, and at the IPFS node
 	o.docs[t] = &orgEntry{ver: 66, policy: "max-age=60"}
 	o.docs["https://gw.example/ipfs/QmAlt/doc.json"] = &orgEntry{ver: 7, policy: "max-age=60"}
 	o.docs["ipfs-node:QmAlt/doc.json"] = &orgEntry{ver: 8}
+	var ops []any
+	{
+		st, lt := policyOracle(pagePol)
+		ops = append(ops, J{"o": "serveAlt", "u": page, "target": t, "storable": st, "lifetime": lt, "policy": pagePol})
+		st, lt = policyOracle("max-age=60")
+		for _, kv := range []struct {
+			u string
+			v int
+		}{{t, 66}, {"https://gw.example/ipfs/QmAlt/doc.json", 7}, {"ipfs-node:QmAlt/doc.json", 8}} {
+			ops = append(ops, J{"o": "serve", "u": kv.u, "v": kv.v, "storable": st, "lifetime": lt, "policy": "max-age=60"})
+		}
+		ops = append(ops, J{"o": "load", "u": page})
+	}
 	loader, _ := cfg.build(o)
 	var why []string
 	doc, err := guard(10*time.Second, func() (*ld.RemoteDocument, error) { return loader.LoadDocument(page) })
@@ -641,11 +657,17 @@ func emitAltRouting(out *Out, r *Rng) {
 		}
 	}
 	lg := fmt.Sprint(o.log)
+	nreq := o.reqs
 	o.mu.Unlock()
 	if errClass(err) == "panic" || errClass(err) == "hang" {
 		why = append(why, "loader "+errClass(err)+": "+err.Error())
 	}
-	out.Emit(Case{Op: "none", In: J{"cfg": cfg.J(), "page": page, "alternate": t, "requests": lg}, Impl: okJ(got), Prop: propOf(why),
+	impl := []any{J{"err": "err", "req": nreq}}
+	if err == nil {
+		impl = []any{J{"ok": got, "req": nreq}}
+	}
+	// the model routes the alternate's target through the same dispatch (Loader.Route)
+	out.Emit(Case{Op: "loader.run", In: J{"cfg": cfg.J(), "ops": ops, "requests": lg}, Impl: impl, Prop: propOf(why),
 		Tags: []string{"alternate-routing", "target:" + strings.SplitN(t, ":", 2)[0]}, NT: true})
 }
 
